@@ -399,6 +399,8 @@ func c18DumpDymns(f *Fix, ctx sdk.Context, out map[string]string) {
 		_ = fbs
 		return c18Join(xs, true)
 	})
+	// the all-time buy-order counter: the next order's id is "10<count+1>" / "20<count+1>" (PlaceBuyOrder)
+	c18Guard(out, "dymns.buyOrderCount", func() string { return fmt.Sprint(k.GetCountBuyOrders(ctx)) })
 	c18Guard(out, "dymns.aliases", func() string {
 		var xs []string
 		for _, a := range k.GetAllRollAppsWithAliases(ctx) {
